@@ -312,6 +312,10 @@ def run(chk: core.Check):
         [("fit", 1, False), ("fit", None, False), ("sample", "smc", 1, False, 2)],
         [("fit", 1, False), ("fit", None, False), ("sample", "smc", 1, False, 1), ("resume", 1), ("sample", "smc", None, True, 0)],
         [("fit", 1, False), ("sample", "smc", 1, True, 0), ("fit", None, False), ("sample", "smc", 1, False, 2), ("resume", 1)],
+        # a resumed object is refitted before it samples: the primed checkpoint belongs to the previous proposal
+        [("fit", None, False), ("sample", "smc", 1, False, 2), ("resume", 1), ("fit", None, False), ("sample", "smc", None, True, 0)],
+        [("fit", None, False), ("sample", "importance", 2, True, 0), ("fit", 2, False), ("sample", "smc", 2, True, 0), ("resume", 2), ("fit", None, False),
+         ("sample", "smc", None, True, 0)],
         # a resumed object samples WITHOUT opening a new context, is interrupted again, and is resumed again
         [("fit", None, False), ("enter", 1, True), ("sample", "smc", None, False, 2), ("exit",), ("resume", 1), ("sample", "smc", None, False, 1),
          ("resume", 1), ("sample", "smc", None, True, 0)],
